@@ -363,12 +363,12 @@ func TestVerifC01Sqlx(t *testing.T) {
 					}
 				case "sqlstexec":
 					if in.stmt == nil {
-						panic("verif c01: no statement prepared on this connection yet")
+						panic(verifc01.SkipPrefix + " no statement prepared on this connection yet")
 					}
 					_, err = in.stmt.ExecCtx(ctx)
 				case "sqlstquery":
 					if in.stmt == nil {
-						panic("verif c01: no statement prepared on this connection yet")
+						panic(verifc01.SkipPrefix + " no statement prepared on this connection yet")
 					}
 					var n int
 					err = in.stmt.QueryRowCtx(ctx, &n)
